@@ -430,6 +430,10 @@ func checkC11(c *Ctx) {
 	c.checkSenderHeader()
 	c.checkLongPollSerialised()
 	c.checkFeaturesAccumulate()
+	c.checkCredentialValidatedOnlyOnSuccess()
+	// a session is authenticated by a token only when the token passes the gates (signature, serial,
+	// expiry compared as a time): shared with C12
+	c.checkTokenAuth()
 }
 
 func keys(m map[string]bool) []string {
